@@ -3,6 +3,7 @@
 package impl
 
 import (
+	"unicode/utf8"
 	"unsafe"
 
 	"google.golang.org/protobuf/encoding/protowire"
@@ -254,10 +255,54 @@ func H_M1_depth() {
 		nd.Reach("rejected")
 		nd.Assert(st != ValidationValid, "validator does not call a rejected buffer valid (recursion limit included)")
 	}
-	// reference nesting depth of the well-formed input: messages/groups of VNests fields 1..5
-	if mScan(b) && depth == 0 {
-		nd.Assert(err != nil, "recursion limit 0 admits no message at all")
+	// reference: an input that decodes with the default limit decodes with limit `depth` exactly
+	// when its nesting (known message and group fields of VNests) needs no more than `depth` levels
+	_, q := vType(3)
+	_, bigErr := mi.unmarshalPointer(b, q, 0, mOpts())
+	if bigErr == nil {
+		need := vNestsDepth(b, 4)
+		nd.Assert((err == nil) == (need <= depth), "Unmarshal fails exactly when the nesting exceeds the recursion limit")
+		if need > depth {
+			nd.Reach("limit exceeded")
+		}
+	} else {
+		nd.Assert(err != nil, "malformed input is rejected whatever the limit")
 	}
+}
+
+// vNestsDepth: levels of decoding a well-formed VNests encoding needs (1 for the message itself,
+// +1 per nested known message/group: fields 1,2 (Child), 3,4 (Child groups), 5 (Nests)).
+func vNestsDepth(b []byte, fuel int) int {
+	need := 1
+	if fuel == 0 {
+		return need
+	}
+	for len(b) > 0 {
+		num, typ, n := protowire.ConsumeTag(b)
+		if n <= 0 {
+			return need
+		}
+		b = b[n:]
+		m := protowire.ConsumeFieldValue(num, typ, b)
+		if m < 0 {
+			return need
+		}
+		d := 1
+		switch {
+		case (num == 1 || num == 2) && typ == protowire.BytesType:
+			d = 2
+		case (num == 3 || num == 4) && typ == protowire.StartGroupType:
+			d = 2
+		case num == 5 && typ == protowire.BytesType:
+			v, _ := protowire.ConsumeBytes(b)
+			d = 1 + vNestsDepth(v, fuel-1)
+		}
+		if d > need {
+			need = d
+		}
+		b = b[m:]
+	}
+	return need
 }
 
 // vReqComplete is the reference required-field check written against the mirror types.
@@ -347,3 +392,82 @@ func H_M1_field_allrep() { mDecodeChecks(12, mOneFieldBytesPacked()) }
 
 //verif:props=C06 bounds=VAllPacked(10-packed-kinds);tag-byte+complete-payload(packed-payloads-0..4(quick)/+8(thorough)-bytes) maxsteps=8000000 deadline=900
 func H_M1_field_allpacked() { mDecodeChecks(13, mOneFieldBytesPacked()) }
+
+// H_M1_utf8: string/bytes fields against the UTF-8 reference (utf8.Valid executed symbolically):
+// a validated string field (proto3 singular and repeated) accepts exactly valid UTF-8, a proto2
+// string field and bytes fields accept every payload; the stored value is the payload, unchanged,
+// and the validator gives the same verdict.
+//
+//verif:props=C13 bounds=4-field-kinds(proto3-string,proto3-repeated-string,proto2-string,proto3-bytes);payload<=4(quick)/5(thorough)-free-bytes(every-rune-width,every-invalid-class) maxsteps=8000000
+func H_M1_utf8() {
+	M := 4
+	if nd.Thorough() {
+		M = 5
+	}
+	n := nd.Int(0, M)
+	payload := nd.BytesN(n)
+	which := nd.Int(0, 3)
+	var k int
+	var tag byte
+	validated := false
+	switch which {
+	case 0:
+		k, tag, validated = 1, 0x1a, true // VScalars3.str = 3
+	case 1:
+		k, tag, validated = 2, 0x22, true // VRepeats.str = 4
+	case 2:
+		k, tag = 0, 0x3a // VScalars2.str = 7 (proto2: not validated)
+	default:
+		k, tag = 1, 0x22 // VScalars3.byt = 4
+	}
+	b := append([]byte{tag, byte(n)}, payload...)
+	mi, p := vType(k)
+	_, err := mi.unmarshalPointer(b, p, 0, mOpts())
+	_, st := mi.validate(b, 0, mOpts())
+	valid := utf8.Valid(payload)
+	if validated {
+		nd.Assert((err == nil) == valid, "validated string field accepts exactly valid UTF-8")
+		if valid {
+			nd.Reach("valid UTF-8")
+			nd.Assert(st != ValidationInvalid, "validator accepts valid UTF-8")
+		} else {
+			nd.Reach("invalid UTF-8")
+			nd.Assert(st != ValidationValid, "validator does not accept invalid UTF-8 in a validated field")
+		}
+	} else {
+		nd.Reach("not validated")
+		nd.Assert(err == nil, "non-validated string and bytes fields accept arbitrary bytes")
+		nd.Assert(st != ValidationInvalid, "validator accepts arbitrary bytes in a non-validated field")
+	}
+	if err != nil {
+		return
+	}
+	// stored value is the payload, unchanged
+	var got []byte
+	switch which {
+	case 0:
+		got = []byte((*VScalars3)(p.p).Str)
+	case 1:
+		x := (*VRepeats)(p.p)
+		nd.Assert(len(x.Str) == 1, "one element appended")
+		if len(x.Str) == 1 {
+			got = []byte(x.Str[0])
+		}
+	case 2:
+		x := (*VScalars2)(p.p)
+		nd.Assert(x.Str != nil, "proto2 string is set")
+		if x.Str != nil {
+			got = []byte(*x.Str)
+		}
+	default:
+		got = (*VScalars3)(p.p).Byt
+	}
+	nd.Assert(mEq(got, payload), "stored value equals the payload")
+	// marshal side: a message holding invalid UTF-8 in a validated field cannot exist after a
+	// successful decode; valid content is re-emitted unchanged
+	canon, merr := mCanon(mi, p)
+	nd.Assert(merr == nil, "marshal succeeds")
+	if n > 0 || which == 1 || which == 2 {
+		nd.Assert(mEq(canon, b), "field is re-emitted unchanged")
+	}
+}
